@@ -233,6 +233,16 @@ def bounded(ctx):
                                                  which, k, sc, "with" if with_cit else "without", got[:2], x.record.id, diff),
                                              case=dict(rotated=which, k=k, scenario=sc, citations=with_cit)))
                             break
+        # a malformed or dangling citation somewhere in the inputs: the call fails inside the dereferencing pass (an
+        # exception that is not a MoClo error); the inputs must come back as they were all the same
+        if with_cit:
+            for (label, v2, m2) in bad_citation_cases(ctx, ns):
+                evals += 1
+                got, changed, _b, _a = run_and_compare(v2, m2)
+                distinct.add(("badcit", label))
+                if changed:
+                    viol.append(dict(name="bad_citation", what="%s: the call ended with %r and left input(s) changed: %r" % (label, got[:3], changed),
+                                     case=dict(scenario=label)))
         # failure injected into the j-th fragment extraction
         for j in range(3):
             evals += 1
@@ -272,7 +282,7 @@ def bounded(ctx):
     for v in viol:
         uniq.setdefault(v["name"], v)
     return dict(evaluations=evals, distinct_nontrivial=len(distinct),
-                rule="every rotation of the vector plasmid and of the first module plasmid x {complete, missing module}; BsaI vector + chain of 3 annotated modules, with and without literature citations: 10 scenarios (complete, "
+                rule="a malformed or dangling citation in each element in turn; every rotation of the vector plasmid and of the first module plasmid x {complete, missing module}; BsaI vector + chain of 3 annotated modules, with and without literature citations: 10 scenarios (complete, "
                      "reordered, unused module, missing module after 0/1/2 consumed, duplicate, invalid vector, invalid module, same "
                      "object twice) x 3 consecutive calls, plus an exception injected into the j-th fragment extraction (j=0..2) and a "
                      "retry; deep snapshot (sequence, ids, features by denoted nucleotides, qualifier values and value types, "
@@ -281,8 +291,31 @@ def bounded(ctx):
                 violations=list(uniq.values())[:20], n_violations=len(uniq))
 
 
+def bad_citation_cases(ctx, ns):
+    """inputs carrying /citation qualifiers of which one, in a late feature of a late element, is malformed
+    ('Doe2020') or dangling ('[9]' with two references): the assembly fails inside the dereferencing pass"""
+    out = []
+    for bad in ("Doe2020", "[9]", "[0]x", ""):
+        for where in (0, 1, 2, 3):      # which element carries it: module 0..2 or the vector
+            vec, badvec, mods, stray, dup, invalid = build_inputs(ctx, ns, random.Random(ctx.seed + 11), True)
+            elems = mods + [vec]
+            elems[where].record.features[-1].qualifiers["citation"] = ["[1]", bad]
+            out.append(("bad-citation %r in element %d" % (bad, where), vec, mods))
+    return out
+
+
+def run_and_compare(vec, mods):
+    inputs = [vec] + mods
+    before = [deep_snapshot(x.record) for x in inputs]
+    got, prod, w = ba.run_assembly(vec, mods)
+    after = [deep_snapshot(x.record) for x in inputs]
+    changed = [(x.record.id, [k for k in b if a.get(k) != b[k]]) for x, b, a in zip(inputs, before, after) if a != b]
+    return got, changed, before, after
+
+
 def replay(ctx, ob, model):
-    """the frame clause of assemble() on an exceptional exit: natively, a missing module with cited inputs"""
+    """the frame clause of assemble() on an exceptional exit: natively, a missing module with cited inputs, and inputs
+    with a malformed / dangling citation (the exits through the dereferencing pass)"""
     from pyvc import native
     if ob.meta.get("function") != "AssemblyManager.assemble" or "exc-frame" not in ob.name:
         return None, "no replay harness for this obligation"
@@ -294,6 +327,11 @@ def replay(ctx, ob, model):
     got, prod, w = ba.run_assembly(vec, mods[:2])
     after = [deep_snapshot(x.record) for x in inputs]
     changed = [x.record.id for x, b, a in zip(inputs, before, after) if a != b]
+    if not changed:
+        for (label, v2, m2) in bad_citation_cases(ctx, ns):
+            got2, ch2, b2, a2 = run_and_compare(v2, m2)
+            if ch2:
+                return True, dict(call="vector.assemble(mod0, mod1, mod2), %s" % label, outcome=list(got2[:3]), inputs_changed=ch2)
     return bool(changed), dict(call="vector.assemble(mod0, mod1) with mod2 missing, inputs carrying /citation qualifiers",
                                outcome=list(got[:2]), inputs_changed=changed,
                                example_before=before[1]["qual_values"], example_after=after[1]["qual_values"])
